@@ -6,10 +6,23 @@ import (
 	"github.com/cedar-policy/cedar-go/types"
 )
 
-// capability represents a known-safe attribute access after a `has` guard.
+// capability represents a known-safe attribute access after a `has` guard,
+// or a known-safe tag access after a `hasTag` guard.
 type capability struct {
-	varName types.String // variable or expression identity
-	attr    types.String // attribute name
+	path capPath      // identity of the guarded expression
+	attr types.String // attribute name, or tag key if tag is set
+	tag  bool         // tags and attributes are separate name spaces
+}
+
+// capPath identifies the expression a capability is about: a variable (its name, a
+// types.String) or an attribute access on another path (a capAccess). Paths are compared
+// structurally, so different expressions never share a key; a dotted rendering would not do,
+// since context["a.b"] and context.a.b render alike.
+type capPath any
+
+type capAccess struct {
+	base capPath
+	attr types.String
 }
 
 // capabilitySet tracks which attributes are safe to access.
